@@ -199,6 +199,14 @@ func (in *Interp) Instantiate(t Tok) Obj {
 // *PSErr, or *Unsupported.
 func (in *Interp) Run(prog []Tok) error {
 	for _, t := range prog {
+		if p, ok := t.(TProc); ok {
+			// interpreters collect the elements of a procedure literal on the
+			// operand stack, so a long body can hit the operand-stack limit
+			// while it is scanned (an implementation limit, C11's domain)
+			if len(in.Stack)+flatSize(p) > in.MaxStack {
+				return unsup("procedure literal of %d tokens on a stack of %d: operand-stack limit while scanning", flatSize(p), len(in.Stack))
+			}
+		}
 		err := in.ExecTop(in.Instantiate(t))
 		if err != nil {
 			return in.topErr(err)
@@ -1646,4 +1654,18 @@ func (in *Interp) RunBytes(src *Scanner) error {
 		return nil
 	}
 	return in.topErr(err)
+}
+
+// flatSize counts the tokens of a procedure literal including nested ones
+// (the number of operand-stack slots its collection may need).
+func flatSize(p TProc) int {
+	n := 1
+	for _, t := range p {
+		if q, ok := t.(TProc); ok {
+			n += flatSize(q)
+		} else {
+			n++
+		}
+	}
+	return n
 }
